@@ -38,14 +38,17 @@ def layouts(draw, tier="quick"):
     a0, a1 = order[0], order[1]
     cells[a0[0]][a0[1]].append("A0")
     cells[a1[0]][a1[1]].append("A1")
-    free = list(order[2:])
+    nag = 3 if (len(order) >= 3 and draw(st.integers(0, 3)) == 0) else 2      # sometimes a three-player game
+    if nag == 3:
+        cells[order[2][0]][order[2][1]].append("A2")
+    free = list(order[nag:])
     nobs = draw(st.integers(0, min(3, len(free))))
     for rc in free[:nobs]:
         cells[rc[0]][rc[1]].append("#")
     nongoal_ok = [rc for rc in coords if "#" not in cells[rc[0]][rc[1]]]
     for _ in range(draw(st.integers(0, 3))):
         rc = draw(st.sampled_from(nongoal_ok))
-        cells[rc[0]][rc[1]].append(draw(st.sampled_from(["G0", "G1", "G"])))
+        cells[rc[0]][rc[1]].append(draw(st.sampled_from(["G0", "G1", "G"] + (["G2", "G2"] if nag == 3 else []))))
     for _ in range(draw(st.integers(0, 4))):
         rc = draw(st.sampled_from(coords))
         cells[rc[0]][rc[1]].append(draw(st.sampled_from(list(WALLS))))
@@ -55,11 +58,12 @@ def layouts(draw, tier="quick"):
     rows = [" ".join(".".join(sorted(set(c))) if c else "." for c in row) for row in cells]
     return {"rows": rows, "fence_success_prob": draw(st.sampled_from([0, 0.25, 0.5, 1, 1.0])),
             "goal_reward": draw(st.sampled_from([10, 1])), "step_cost": draw(st.sampled_from([-1, 0])),
-            "collision_cost": draw(st.sampled_from([0, -2]))}
+            "collision_cost": draw(st.sampled_from([0, -2])), "agents": nag}
 
 
-def parse(rows):
+def parse(rows, GOALS=None):
     """own parser: returns width, height and feature maps keyed by (x, y) with y counted from the bottom"""
+    GOALS = GOALS or globals()["GOALS"]
     h = len(rows)
     grid = [r.split() for r in rows]
     w = len(grid[0])
@@ -88,18 +92,26 @@ def skey(s):
 def prop_gridgame(spec, ctx):
     from msdm.domains.gridgame.tabulargridgame import TabularGridGame, TERMINALSTATE
     game_string = "\n".join(spec["rows"])
+    nag = spec.get("agents", 2)
+    names = ["A0", "A1", "A2"][:nag]
+    extra = {}
+    goalmap = dict(GOALS)
+    if nag == 3:
+        goalmap = {"G0": ("A0",), "G1": ("A1",), "G2": ("A2",), "G": ("A0", "A1", "A2")}
+        extra = dict(agent_symbols=tuple(names), goal_symbols=tuple(goalmap.items()))
+        ctx.event("three_agents")
     gg = ctx.call("C18.game.construct_raises", TabularGridGame, game_string, fence_success_prob=spec["fence_success_prob"],
-                  goal_reward=spec["goal_reward"], step_cost=spec["step_cost"], collision_cost=spec["collision_cost"])
-    w, h, obstacles, goals, walls, fences = parse(spec["rows"])
-    names = ["A0", "A1"]
+                  goal_reward=spec["goal_reward"], step_cost=spec["step_cost"], collision_cost=spec["collision_cost"], **extra)
+    w, h, obstacles, goals, walls, fences = parse(spec["rows"], goalmap)
     init = [s for s, p in gg.initial_state_dist().items() if p > 0]
     ctx.check(len(init) == 1, "C18.game.initial_state_is_single")
-    cap = 150 if ctx.tier == "thorough" else 40
+    cap = (150 if ctx.tier == "thorough" else 40) if nag == 2 else (40 if ctx.tier == "thorough" else 10)
     seen = {skey(init[0]): init[0]}
     queue = [init[0]]
     contend = adjacent = False
     visited = 0
-    joint = [dict(zip(names, ja)) for ja in itertools.product(ACTIONS, repeat=2)]
+    joint = [dict(zip(names, ja)) for ja in itertools.product(ACTIONS, repeat=nag)]
+    pairs_of_agents = list(itertools.combinations(names, 2))
     while queue and visited < cap:
         s = queue.pop(0)
         visited += 1
@@ -128,7 +140,7 @@ def prop_gridgame(spec, ctx):
                         ctx.check(all(v == 0 for v in jr.values()), "C18.game.terminal_pays_nothing", lambda: f"{jr}")
                 continue
             targets = {n: (pos[n][0] + ja[n]["x"], pos[n][1] + ja[n]["y"]) for n in names}
-            if targets["A0"] == targets["A1"] or (targets["A0"] == pos["A1"] and targets["A1"] == pos["A0"]):
+            if any(targets[p_] == targets[q_] or (targets[p_] == pos[q_] and targets[q_] == pos[p_]) for p_, q_ in pairs_of_agents):
                 contend = True
             for ns, p in succ:
                 ctx.check(not ns.get("isTerminal", False), "C18.game.terminal_from_non_goal_state", lambda: f"state {s}")
@@ -144,10 +156,11 @@ def prop_gridgame(spec, ctx):
                     ctx.check((pos[n], npos[n]) not in walls, "C18.game.agent_crossed_wall", lambda: f"{s} --{ja}--> {ns} (p={p})")
                     if spec["fence_success_prob"] == 0:
                         ctx.check((pos[n], npos[n]) not in fences, "C18.game.agent_crossed_impassable_fence", lambda: f"{s} --{ja}--> {ns}")
-                if npos["A0"] == npos["A1"]:
-                    ctx.check(npos["A0"] in goals, "C18.game.agents_share_non_goal_cell", lambda: f"{s} --{ja}--> {ns} (p={p})")
-                ctx.check(not (npos["A0"] == pos["A1"] and npos["A1"] == pos["A0"]), "C18.game.agents_swapped_cells",
-                          lambda: f"{s} --{ja}--> {ns} (p={p})")
+                for p_, q_ in pairs_of_agents:
+                    if npos[p_] == npos[q_]:
+                        ctx.check(npos[p_] in goals, "C18.game.agents_share_non_goal_cell", lambda: f"{p_},{q_}: {s} --{ja}--> {ns} (p={p})")
+                    ctx.check(not (npos[p_] == pos[q_] and npos[q_] == pos[p_]), "C18.game.agents_swapped_cells",
+                              lambda: f"{p_},{q_}: {s} --{ja}--> {ns} (p={p})")
                 k = skey(ns)
                 if k not in seen:
                     seen[k] = ns
@@ -160,7 +173,7 @@ def prop_gridgame(spec, ctx):
             seen[skey(TERMINALSTATE)] = TERMINALSTATE
             queue.append(TERMINALSTATE)
     ctx.event(f"visited_states", visited)
-    ctx.event("pairs", visited * 25)
+    ctx.event("pairs", visited * len(joint))
     if contend:
         ctx.event("contention_or_swap")
     ctx.nontrivial(contend or adjacent)
